@@ -12,8 +12,25 @@ import (
 	"golang.org/x/tools/go/ssa"
 )
 
+// String keys are compared by CONTENT in Go. Strings are immutable, so the content is a function of
+// the string value; map keys of string type are abstracted by an uninterpreted strkey(value): equal
+// values give equal keys, and nothing is assumed about different values (they may well be equal keys).
 func (g *Gen) mapKeySort(mt *types.Map) string {
+	if isString(mt.Key()) {
+		return "Int"
+	}
 	return g.sortOf(mt.Key())
+}
+
+func (g *Gen) mapKey(k string, mt *types.Map) string {
+	if isString(mt.Key()) {
+		if !g.funDecl["strkey"] {
+			g.funDecl["strkey"] = true
+			g.prel = append(g.prel, "(declare-fun strkey (Slice) Int)")
+		}
+		return "(strkey " + k + ")"
+	}
+	return k
 }
 
 func (g *Gen) mapCompNames(t types.Type) (v, in, ln string) {
@@ -39,14 +56,14 @@ func (g *Gen) mapComps(t types.Type) []string {
 func (g *Gen) mapLen(m string, t types.Type) string {
 	_, _, ln := g.mapCompNames(t)
 	r := fmt.Sprintf("(select %s %s)", g.heapGet(ln), m)
-	g.assumeAlways(g.le(g.idx(0), r, true))
+	g.assumeAlways(fmt.Sprintf("(and %s %s)", g.le(g.idx(0), r, true), g.lt(r, g.idx(281474976710656), true))) // 0 <= len < 2^48 (memory bound)
 	return r
 }
 
 func (g *Gen) mapLenIn(m string, t types.Type, env *TEnv) string {
 	_, _, ln := g.mapCompNames(t)
 	r := fmt.Sprintf("(select %s %s)", env.heap(ln), m)
-	g.assumeAlways(g.le(g.idx(0), r, true))
+	g.assumeAlways(fmt.Sprintf("(and %s %s)", g.le(g.idx(0), r, true), g.lt(r, g.idx(281474976710656), true))) // 0 <= len < 2^48 (memory bound)
 	return r
 }
 
@@ -64,7 +81,7 @@ func (g *Gen) makeMap(x *ssa.MakeMap) {
 
 func (g *Gen) mapUpdate(x *ssa.MapUpdate) {
 	m := g.term(x.Map)
-	k := g.term(x.Key)
+	k := g.mapKey(g.term(x.Key), x.Map.Type().Underlying().(*types.Map))
 	val := g.term(x.Value)
 	v, in, ln := g.mapCompNames(x.Map.Type())
 	g.safety("nilmap", fmt.Sprintf("(not (= %s 0))", m), "assignment to entry in nil map")
@@ -77,7 +94,7 @@ func (g *Gen) mapUpdate(x *ssa.MapUpdate) {
 
 func (g *Gen) mapDelete(cc *ssa.CallCommon) {
 	m := g.term(cc.Args[0])
-	k := g.term(cc.Args[1])
+	k := g.mapKey(g.term(cc.Args[1]), cc.Args[0].Type().Underlying().(*types.Map))
 	_, in, ln := g.mapCompNames(cc.Args[0].Type())
 	hin, hln := g.heapGet(in), g.heapGet(ln)
 	present := fmt.Sprintf("(and (not (= %s 0)) (select (select %s %s) %s))", m, hin, m, k)
@@ -94,11 +111,11 @@ func (g *Gen) lookup(x *ssa.Lookup) {
 		i := g.toIdx(x.Index)
 		g.safety("index", fmt.Sprintf("(and %s %s)", g.le(g.idx(0), i, true), g.lt(i, "(len "+a+")", true)), "string index in range")
 		c, _ := g.memComp(types.Typ[types.Uint8])
-		fr.val[x] = g.define(x.Name(), g.sortOf(x.Type()), fmt.Sprintf("(select (select %s (base %s)) %s)", g.heapGet(c), a, g.addIdx("(off "+a+")", i)))
+		fr.val[x] = g.define(x.Name(), g.sortOf(x.Type()), fmt.Sprintf("(select (select %s (base %s)) %s)", g.heapGet(c), a, g.elemIdx("(off "+a+")", i)))
 		return
 	}
 	m := g.term(x.X)
-	k := g.term(x.Index)
+	k := g.mapKey(g.term(x.Index), mt)
 	v, in, _ := g.mapCompNames(x.X.Type())
 	present := g.define("mp_ok", "Bool", fmt.Sprintf("(and (not (= %s 0)) (select (select %s %s) %s))", m, g.heapGet(in), m, k))
 	// a map that contains a key has at least one element (true of every real execution)
@@ -125,6 +142,7 @@ func (g *Gen) mapGetTv(m tvT, k tvT, env *TEnv) tvT {
 	if g.bv && k.lit != nil {
 		kt = g.numBig(k.lit, mt.Key())
 	}
+	kt = g.mapKey(kt, mt)
 	present := fmt.Sprintf("(and (not (= %s 0)) (select (select %s %s) %s))", m.t, env.heap(in), m.t, kt)
 	return tvT{t: fmt.Sprintf("(ite %s (select (select %s %s) %s) %s)", present, env.heap(v), m.t, kt, g.zeroValue(mt.Elem())), gt: mt.Elem()}
 }
@@ -155,6 +173,8 @@ func (g *Gen) rangeNext(x *ssa.Next) {
 	if c := g.typeInv(k, mt.Key(), false); c != "true" {
 		g.assumeAlways(c)
 	}
+	kv := k // the key value handed to the program
+	k = g.mapKey(k, mt)
 	v := g.define("next_v", g.sortOf(mt.Elem()), fmt.Sprintf("(select (select %s %s) %s)", g.heapGet(vc), m, k))
 	if c := g.typeInv(v, mt.Elem(), g.pristine[g.heapGet(vc)]); c != "true" {
 		g.assumeAlways(c)
@@ -162,5 +182,5 @@ func (g *Gen) rangeNext(x *ssa.Next) {
 	g.assumeAlways(fmt.Sprintf("(=> %s (and (not (= %s 0)) (select (select %s %s) %s) %s))", ok, m, g.heapGet(in), m, k, g.lt(g.idx(0), fmt.Sprintf("(select %s %s)", g.heapGet(ln), m), true)))
 	// an empty or nil map yields nothing
 	g.assumeAlways(fmt.Sprintf("(=> (or (= %s 0) (= (select %s %s) %s)) (not %s))", m, g.heapGet(ln), m, g.idx(0), ok))
-	fr.tuple[x] = []string{ok, k, v}
+	fr.tuple[x] = []string{ok, kv, v}
 }
